@@ -1841,7 +1841,7 @@ def falsify(ctx, hints):
                         "span (prepend_input, remove_initial, remove_terminal, force_split_frames)", where, bad[:4],
                         "identical cells within 1e-9")
                 # one object with 2-4 parameter variants, every variant against ITS parameters
-                dv = draw_variants(rng, spec) if info["models"] % 2 == 0 else None
+                dv = draw_variants(rng, spec)
                 if dv is not None:
                     fl = variants_case(spec, sc, dv[0], dv[1])
                     if fl is not None:
